@@ -13,6 +13,6 @@ Verdict ==
     ELSE IF \E i \in DOMAIN R.before : ~SameStyle(R.before[i], R.after[i]) THEN "config-style-differs"
     ELSE "ok"
 Init == tid \in 1..Len(Recs)
-Next == UNCHANGED tid
+Next == FALSE /\ UNCHANGED tid        \* one state per record: the verdict is printed once
 Report == PrintT(<<"VERDICT", tid, Verdict>>)
 =============================================================================
